@@ -184,17 +184,24 @@ def run(call: GeneratorCall) -> Module:
         msg = f"Generator {call.gen} returned {m}, must return `Module`."
         raise RuntimeError(msg)
 
+    # A generator may hand on the Module produced by another generator call,
+    # as the built-in `MosStack` does with the result of `Series`.
+    # Such a Module has been uniquely named by the call that created it, and keeps that name.
+    # Renaming it again would make its name depend on which calls handed it on, and in what order.
+    handed_on = m._generated_by is not None
+
     # Give the result a reference back to the generating `Call`
     m._generated_by = call
 
-    # Module naming
-    # If the Module that comes back is anonymous, start by giving it a name equal to the Generator's
-    if m.name is None:
-        m.name = call.gen.name
+    if not handed_on:
+        # Module naming
+        # If the Module that comes back is anonymous, start by giving it a name equal to the Generator's
+        if m.name is None:
+            m.name = call.gen.name
 
-    # If it has a nonzero number of parameters, add a unique suffix per its parameter-values
-    if hasparams(call.gen.Params):
-        m.name += "(" + _unique_name(call.params) + ")"
+        # If it has a nonzero number of parameters, add a unique suffix per its parameter-values
+        if hasparams(call.gen.Params):
+            m.name += "(" + _unique_name(call.params) + ")"
 
     # Store the result in our cache, and on the Call.
     the_cache.stack.pop()
